@@ -559,6 +559,23 @@ class World:
             return None
         return self._emit(c, m.is_event, inc, m.name, m.opcode, args, m.signature())
 
+    def _act_orphan_future(self, c, r1, r2, rng):
+        """NOT well-formed: a message on a client id that has never been used on this connection - a log that started late, or a
+        stray line - while the allocator will hand that very id out later.  The tool can not resolve it; nothing is created"""
+        cands = ['wl_surface', 'wl_buffer', 'xdg_toplevel', 'wl_region', 'wl_callback']
+        iface = cands[r2 % len(cands)]
+        model = self.proto.get(iface)
+        ms = [m for m in (model.usable(bool(r2 & 8)) if model else []) if not any(a.kind in 'on' for a in m.args)]
+        if not ms:
+            return None
+        m = ms[r1 % len(ms)]
+        inc = Incarnation(c.index, c.client_next, 0, iface, None, self.now)
+        inc.orphan = True
+        args = self._build_args(c, m, rng, m.is_event, [], [])
+        if args is None:
+            return None
+        return self._emit(c, m.is_event, inc, m.name, m.opcode, args, m.signature())
+
     def _act_dup_registry(self, c, r1, r2, rng):
         """NOT well-formed: `wl_display.get_registry(new id wl_registry@<id>)` naming a registry id that is still alive (a
         program that reconnected, or two logs glued together, without connection tags).  Ground truth creates nothing: only
@@ -624,7 +641,7 @@ class World:
 
 
 ACT_KINDS = ['get_registry', 'sync', 'done', 'delete_id', 'global', 'bind', 'request', 'event',
-             'request_new', 'event_new', 'mention', 'destroy', 'churn', 'bind_synth', 'destroy_server', 'app_id', 'orphan', 'shm', 'orphan_clash', 'dup_registry']
+             'request_new', 'event_new', 'mention', 'destroy', 'churn', 'bind_synth', 'destroy_server', 'app_id', 'orphan', 'shm', 'orphan_clash', 'dup_registry', 'orphan_future']
 
 CHATTER_TEMPLATES = [
     '', '   ', '\t', 'hello world', 'libEGL warning: DRI2: failed to authenticate',
